@@ -245,9 +245,10 @@ def gen_real(rng, cls=None, nonneg=False):
     cls = cls or rng.choice(REAL_CLASSES)
     if cls == 'ordinary': x = rng.choice([1.013e5, 20.0, 0.25, 101325.0, 15.5, 3.3e6, 240.0 - 1e-4 * rng.random(), rng.uniform(0, 1e7)])
     elif cls == 'negative': x = -rng.choice([1.0, 1.5e-5, 99.75, 3.25e7, rng.uniform(0, 1e5), 10.0 ** rng.randint(-99, 99) * rng.random()])
-    elif cls == 'huge': x = rng.uniform(1, 10) * 10.0 ** rng.choice([100, 101, 150, 299, 307, rng.randint(100, 307)])
-    elif cls == 'tiny': x = rng.uniform(1, 10) * 10.0 ** rng.choice([-100, -101, -150, -299, -307, rng.randint(-307, -100)])
-    elif cls == 'neg3': x = -rng.uniform(1, 10) * 10.0 ** rng.choice([100, -100, 200, -200, rng.randint(100, 307), rng.randint(-307, -100)])
+    # 3-digit exponents: mostly just past the 2-digit range (the exact arithmetic of the model costs ~ exponent^2), some far out
+    elif cls == 'huge': x = rng.uniform(1, 10) * 10.0 ** rng.choice([100, 100, 101, 102, 105, 120, rng.choice([150, 299, 307, rng.randint(100, 307)])])
+    elif cls == 'tiny': x = rng.uniform(1, 10) * 10.0 ** rng.choice([-100, -100, -101, -102, -105, -120, rng.choice([-150, -299, -307, rng.randint(-307, -100)])])
+    elif cls == 'neg3': x = -rng.uniform(1, 10) * 10.0 ** rng.choice([100, -100, 101, -101, 110, -110, rng.choice([200, -200, rng.randint(100, 307), rng.randint(-307, -100)])])
     elif cls == 'zero': x = rng.choice([0.0, -0.0])
     elif cls == 'tie': x = float(rng.choice([123456789012345, 100000000000005, 999999999999995, 12345678905, 10000000005, 5, 15, 25])) * 10.0 ** rng.choice([0, 0, 1, 3])
     elif cls == 'carry': x = rng.choice([9.99999999999999e99, 9.9999999999999999e9, 9.99999999996e-100, 9.9999999995e5, 9.99999999999995e-101, 9.9999999999999e99])
